@@ -172,6 +172,12 @@ impl ISocket for RepSocket {
 
     let peer_to_reply_to = {
       let mut guard = self.state.lock();
+      // Refuse (keeping the pending request) a reply that would not fit a batch with its routing prefix.
+      if let RepState::ReceivedRequest(info) = &*guard {
+        if info.routing_prefix.len() + user_payload_frames.len() > FrameBatch::MAX_FRAMES {
+          return Err(FrameBatch::too_many_frames_error());
+        }
+      }
       match std::mem::replace(&mut *guard, RepState::ReadyToReceive) {
         RepState::ReceivedRequest(info) => info,
         RepState::ReadyToReceive => {
